@@ -2,7 +2,7 @@
 import ipaddress
 
 from .flow import show, subterms, strip_mut, walk_effects, MUTATORS
-from .source import AnalysisError
+from .source import AnalysisError, ShapeError
 from .fold import Unfoldable
 from . import match as M
 from .calls import bind_args
@@ -61,7 +61,7 @@ class IpModel:
                         self.CACHE = name
                         self.cache_init = (e, path)
         if self.CACHE is None:
-            raise AnalysisError("memo field (a bidict assigned in %s) not found" % self.f_init.qualname)
+            raise ShapeError("memo field (a bidict assigned in %s) not found" % self.f_init.qualname, self.f_init.where, self.f_init.qualname)
         params = self.f_init.params
 
         def field_of_param(pn):
@@ -82,7 +82,7 @@ class IpModel:
         self.SUFFIX = field_of_param("preserve_suffix")
         for role, v in (("salt", self.SALT), ("length", self.LENGTH), ("salter", self.SALTER), ("preserve_suffix", self.SUFFIX)):
             if v is None:
-                raise AnalysisError("constructor parameter %r of %s is not stored in a field" % (role, self.f_init.qualname))
+                raise ShapeError("constructor parameter %r of %s is not stored in a field as given (the model's role fields are the parameters themselves)" % (role, self.f_init.qualname), self.f_init.where, "%s:%s" % (self.f_init.qualname, role))
         # the field holding the binary format string: built from `length`
         self.FMT = None
         for name, lst in self.init_stores.items():
@@ -637,14 +637,14 @@ def memo_uses(model, rep, cl):
                     _scan_use(model, rep, cl, f, t, where(f, node), uses, top=True)
         for uid, li in fp.loops.items():
             if li.iter is not None:
-                _scan_use(model, rep, cl, f, li.iter, where(f, li.node), uses, top=True)
+                _scan_use(model, rep, cl, f, li.iter, where(f, li.node), uses, top=True, iterated=True)
     return uses
 
 
 READ_METHODS = {"get", "items", "keys", "values", "__contains__", "__len__"}
 
 
-def _scan_use(model, rep, cl, f, t, w, uses, top=False, returned=False, parent=None):
+def _scan_use(model, rep, cl, f, t, w, uses, top=False, returned=False, parent=None, iterated=False):
     C = model.CACHE
     if not isinstance(t, tuple) or not t:
         return
@@ -676,8 +676,12 @@ def _scan_use(model, rep, cl, f, t, w, uses, top=False, returned=False, parent=N
                 kind, ok = "len", True
             elif ctx[0] == "call":
                 kind, ok = "escapes-as-argument", False
+            elif ctx[0] == "loopvar" and ctx[2] == t:
+                kind, ok = "iterated-element", True  # a key taken out of the memo by `for k in memo`
             else:
                 kind, ok = "other:" + ctx[0], False
+        elif iterated:
+            kind, ok = "iterated", True  # `for k in memo:` reads its keys in insertion order
         else:
             kind, ok = ("returned" if returned else "bare"), False
         uses.append((kind, f.qualname))
